@@ -132,7 +132,7 @@ def c13_replay(ctx, rep):
 
 
 # ------------------------------------------------------------------------------------------ C12
-DEVS = ["PushLast", "Sort", "Take", "Append", "Filter", "Collect"]
+DEVS = ["PushLast", "Sort", "Take", "Append", "Filter", "Collect", "CollectNE", "Concat"]
 
 
 def hist_from_dump(path):
@@ -214,7 +214,7 @@ def describe_bad(lines, hists, b):
 
 def c12(ctx):
     ctx.rule = ("histories = behaviours of the heap machine GoSliceHeap (TLC simulation seeded by VERIF_SEED, initial values of "
-                "every (offset, length, capacity) shape over arrays <= 3, plus the shortest Purity counterexamples TLC finds for 5 "
+                "every (offset, length, capacity) shape over arrays <= 3, plus the shortest Purity counterexamples TLC finds for 8 "
                 "named wrong implementations), replayed on the real package for T=int and T=string; after every call the observed "
                 "contents of every pool value are validated against the machine (GoSliceHeapTrace). distinct = distinct "
                 "histories; non-trivial = contains a call on a value with spare capacity or an alias (Tail/PopLast result or an "
